@@ -88,7 +88,62 @@ def search_defuse():
     return wit, cases
 
 
+def search_imports():
+    """relative imports on the real ImportHierarchy.analyze_import_stmt: the path search must start `dots - 1` packages above the importing file (or at the last package
+    that has a parent); the search itself is intercepted"""
+    from lian.basics.import_hierarchy import ImportHierarchy
+
+    class Stop(Exception):
+        pass
+
+    class Node:
+        def __init__(self, scope_id):
+            self.scope_id = scope_id
+
+    class Row:
+        def __init__(self, **kw):
+            self.__dict__.update(kw)
+    wit, cases = [], 0
+    # module ids: 10 -> parent 20 -> parent 30 -> parent 40 (root: scope_id -1); 55 is not in the table
+    table = {10: Node(20), 20: Node(30), 30: Node(40), 40: Node(-1)}
+
+    def up(k, x):
+        while k > 0 and x in table and table[x] and table[x].scope_id != -1:
+            x, k = table[x].scope_id, k - 1
+        return x
+    for start in (10, 20, 30, 40, 55):
+        for dots in range(0, 6):
+            cases += 1
+            ih = object.__new__(ImportHierarchy)
+            ih.symbol_id_to_symbol_node = dict(table)
+            ih.is_strict_parse_mode = False
+            seen = []
+
+            def capture(path, parent, seen=seen):
+                seen.append(parent)
+                raise Stop()
+            ih.parse_import_path_from_current_dir = capture
+            ih.validate_import_stmt = lambda unit_info, stmt: True
+            stmt = Row(source='.' * dots + 'pkg.mod', name='helper', alias=None, stmt_id=7, operation='from_import_stmt')
+            try:
+                ih.analyze_import_stmt(1, Row(parent_module_id=start, original_path='x.py'), stmt, [])
+            except Stop:
+                pass
+            except Exception as e:       # noqa
+                seen.append(f'exception {e!r}')
+            want = up(max(dots - 1, 0), start)
+            if seen[:1] != [want]:
+                wit.append(dict(function='ImportHierarchy.analyze_import_stmt', input=dict(importing_module_parent=start, leading_dots=dots, parents='10->20->30->40(root)'),
+                                observed=f'search started at {seen[:1]}, expected at {want}', clauses=['relative-import', 'climbed-so-far']))
+                if len(wit) >= 2:
+                    return wit, cases
+    return wit, cases
+
+
 def search(target, models):
+    if 'analyze_import_stmt' in target or 'ImportHierarchy' in target:
+        wit, cases = search_imports()
+        return dict(witnesses=wit, searched=f'{cases} (start module, number of leading dots) pairs on a 4-level package chain', how='real ImportHierarchy.analyze_import_stmt, path search intercepted')
     if 'add_status' in target or target == 'extra':
         wit, cases = search_defuse()
         return dict(witnesses=wit, searched=f'{cases} statements (nonlocal, global)', how='real add_status_with_symbol_id_sync with a recording resolver stub')
